@@ -276,6 +276,18 @@ def replay(r):
 
 def run(prop, tier, seed, wd, t0):
     jobs = jobs_for(prop, tier)
+    # provenance of locations: every tree node the real statement / program parser builds carries the (file, line) of one token (tokens of two files mixed)
+    try:
+        import c04
+        pj, _ = c04.parser_jobs(prop, tier, wd, [prop])
+        for j in pj:
+            if j.name.startswith(('parse.P.', 'parse.S.PROGRAM', 'parse.VALUE.', 'parse.ARGS.')) and not j.name.endswith('.other'):
+                j.name += '.provenance'; j.defines = list(j.defines) + ['PB_PROVENANCE=1']; j.build_key = tuple(j.build_key) + ('prov',)
+                j.what = 'real %s of parse.cpp, callees as contract stubs, tokens of two files mixed: every node built carries file and line of one token' % j.name.split('.')[1]
+                j.layout = None
+                jobs.append(j)
+    except ImportError:
+        pass
     # the native build of /repo (about 40 s) runs next to the solver jobs
     nat = {}
     def build_native():
